@@ -413,7 +413,7 @@ def should_rerun_table(ctx: Ctx, rule: str) -> None:
 
 
 # ---------------------------------------------------------------------- clean decision (C05.4)
-def clean_decision_table(ctx: Ctx, rule: str) -> None:
+def clean_decision_table(ctx: Ctx, rule: str, all_owners: bool = False) -> None:
     fref = f"{NODE}:TestNode.default_clean_decision"
     fn = ctx.repo.func(fref)
     ctx.touch(fref)
@@ -571,7 +571,8 @@ def clean_decision_table(ctx: Ctx, rule: str) -> None:
             rets = [r for r in ast.walk(l) if isinstance(r, ast.Return) and isinstance(r.value, ast.Constant) and r.value.value is False]
             if readiness and rets:
                 covers_all_copies = True
-    ctx.record(rule + "x", "TABLE", fref,
+    if all_owners:
+      ctx.record(rule + "x", "TABLE", fref,
                "reversible: also every bridged copy owned by a worker that has not picked the node yet must be cleanup ready for that worker",
                covers_all_copies, {"rule": "the clean decision quantifies over all owners of a copy, not only over shared_involved_workers"},
                "" if covers_all_copies else "the clean decision only consults the workers that already picked the node (shared_involved_workers): a worker that "
